@@ -50,6 +50,14 @@ theorem pattern_expr_never_panics (fo : FOps) (vars : List (String × Value)) (e
   have h := evalPat_safe fo e vars
   constructor <;> intro hc <;> rw [hc] at h <;> exact h
 
+/-- `slice::sort_by` may panic when its comparator is not a total order. The comparator of `sort`
+(after the repair; `f64::total_cmp` for floats, kind rank across kinds) is one: antisymmetric and
+transitive on all values, NaN of either sign, ±0.0 and mixed kinds included. -/
+theorem sort_comparator_is_total_preorder :
+    (∀ a b : Value, sortCmp b a = Ordering.rev (sortCmp a b)) ∧
+      (∀ a b c : Value, sortCmp a b ≠ .gt → sortCmp b c ≠ .gt → sortCmp a c ≠ .gt) :=
+  ⟨sortCmp_rev, fun _ _ _ h1 h2 => sortCmp_trans h1 h2⟩
+
 /-- the pattern-expression operator evaluation (`eval_binary_op`) is total as well -/
 theorem pattern_binop_never_panics (op : BinOp) (l r : Value) :
     patternBinop .fixed op l r ≠ .panic ∧ patternBinop .fixed op l r ≠ .diverge := by
